@@ -170,7 +170,7 @@ def nonstr(ctx):
         pass
 
     for cfg in config_names(ctx):
-        for v in (None, 1, 1.5, b"a b", bytearray(b"a"), ("a",), S("a b%41"), S(""), "", object()):
+        for v in (None, 1, 1.5, b"a b", bytearray(b"a"), ("a",), S("a b%41"), S(""), "", object(), 0, 0.0, False, True, b"", bytearray(), (), [], {}, frozenset(), 0j):
             ctx.cur = ("diff", {"cfg": cfg, "s": repr(v)})
             fp, fc = _pair(ctx, cfg)
             a, b = _call(fp, v), _call(fc, v)
@@ -202,7 +202,7 @@ def sequences(ctx, n):
 
 
 def urls(ctx, n):
-    ctx.given("url", {"p": prog.program(encoded_ctor=True)}, max_examples=n)
+    ctx.given("url", {"p": prog.program(encoded_ctor=True, enc_mixed_case=True)}, max_examples=n)
 
 
 def singles(ctx):
